@@ -275,6 +275,28 @@ func (c *Ctx) intBinop(st *State, op token.Token, a, b Term, t types.Type, bt ty
 			}
 			return app(SInt, "mod", a, b)
 		}
+		if k, isLit := litInt(b); isLit && k.Sign() > 0 {
+			// constant positive divisor: linear form of Go's truncated division
+			q := Ite(app(SBool, ">=", a, Term{"0", SInt}), app(SInt, "div", a, b), app(SInt, "-", app(SInt, "div", app(SInt, "-", a), b)))
+			if op == token.QUO {
+				return q
+			}
+			return app(SInt, "-", a, app(SInt, "*", b, q))
+		}
+		if c.fc != nil && c.fc.Opts["uf-mod"] != "" {
+			// variable divisor kept uninterpreted (congruence only) with the range facts of a non-negative dividend
+			if !c.uf["go.tdiv"] {
+				c.declareUF("go.tdiv", []string{SInt, SInt}, SInt)
+				c.declareUF("go.tmod", []string{SInt, SInt}, SInt)
+				c.raw("(assert (forall ((a Int) (b Int)) (! (=> (and (>= a 0) (> b 0)) (and (<= 0 (go.tmod a b)) (< (go.tmod a b) b))) :pattern ((go.tmod a b)))))")
+				c.raw("(assert (forall ((a Int) (b Int)) (! (=> (and (>= a 0) (> b 0)) (and (<= 0 (go.tdiv a b)) (<= (go.tdiv a b) a))) :pattern ((go.tdiv a b)))))")
+				c.trusted["signed / and % by a variable divisor are uninterpreted functions with range facts only (opt uf-mod)"] = true
+			}
+			if op == token.QUO {
+				return app(SInt, "go.tdiv", a, b)
+			}
+			return app(SInt, "go.tmod", a, b)
+		}
 		c.ensureIntHelpers()
 		if op == token.QUO {
 			return app(SInt, "tdiv", a, b) // MinInt/-1 overflow ignored (wraps to MinInt in Go)
